@@ -9,12 +9,30 @@ def groups(tier):
                clause='gf_div(a,b)*b == a for b != 0; b == 0 raises invalid_argument'),
          Group('gf.field', 'shamir', 'C10/gf.c', entry='h_field', unwind=9, kind='constant-unwind', bound='8-bit operands',
                clause='the specification product is commutative, has identity 1 and no zero divisors')]
-    G += [Group('split.indices.n<=16', 'shamir', 'C10/gf.c', entry='h_split_indices', defines=['N_MAX=16'], unwind=18, unwind_by={'crypto__build_exp_table': 513, 'crypto__build_log_table': 257, 'crypto__Shamir__split#1': 33}, kind='bounded',
+    G += [Group('split.indices.n<=16', 'shamir', 'C10/gf.c', entry='h_split_indices', defines=['N_MAX=16', 'CXX_RESERVE_CONST_STORAGE'], unwind=18, unwind_by={'crypto__build_exp_table': 513, 'crypto__build_log_table': 257, 'crypto__Shamir__split#1': 33}, kind='bounded',
                 bound='share_count <= 16, threshold 1', timeout=600,
                 clause='split terminates and yields n shares with distinct non-zero indices 1..n'),
           Group('split.contract', 'shamir', 'C10/gf.c', entry='h_split_contract', enforce='crypto__Shamir__split', loop_contracts=True,
-                replace=['vec_crypto__ShamirShare_push_back', 'vec_u8_push_back', 'crypto__evaluate_polynomial'],
-                unwind=20, unwind_by={'crypto__build_exp_table': 513, 'crypto__build_log_table': 257}, kind='unbounded', timeout=600,
-                clause='split terminates (loop variants) for every threshold and share count 0..255, yields share_count shares, '
-                       'and raises invalid_argument exactly for t = 0, n = 0 or t > n')]
+                replace=['vec_crypto__ShamirShare_push_back_reserved', 'vec_u8_push_back', 'crypto__evaluate_polynomial'],
+                unwind=20, unwind_by={'crypto__build_exp_table': 513, 'crypto__build_log_table': 257}, kind='unbounded', timeout=900,
+                replay='split',
+                clause='split terminates (loop invariants + variants on all four loops) for every threshold and share count 0..255, '
+                       'yields share_count shares, and raises invalid_argument exactly for t = 0, n = 0 or t > n')]
     return G
+
+
+def replay(group, trace):
+    """native replay of a split counterexample: the REAL Shamir::split on (threshold, share_count) from the trace"""
+    import sys, os
+    root = os.path.dirname(os.path.dirname(os.path.abspath(__file__)))
+    sys.path.insert(0, os.path.join(root, 'replay'))
+    import replaylib as R
+    if group.replay != 'split':
+        return None, 'no native replay for this group'
+    a = (trace or {}).get('assignments', {})
+    if 'in_t' not in a or 'in_n' not in a:
+        return None, 'counterexample has no (threshold, share_count) assignment'
+    t, n = R.num(a.get('in_t')), R.num(a.get('in_n'))
+    exe = R.build('C10.cpp', [])
+    rc, out = R.run(exe, [t, n], timeout=30)
+    return rc == 1, f'split(threshold={t}, share_count={n}) -> exit {rc}: {out.strip()[-300:]}'
